@@ -53,7 +53,10 @@ def check(run: Run, prog: Program, model: Model, tier: str) -> None:
     try:
         mapping = ast.literal_eval(b.node)
     except Exception as e:
-        raise AnalysisError(f"mapping is not a literal: {e}")
+        # not a pure literal (a comprehension over constant names, say): evaluate the expression abstractly
+        mapping = _eval_constant(prog, model, mod, b.node)
+        if not isinstance(mapping, dict):
+            raise AnalysisError(f"mapping is not a literal: {e}")
 
     # ---------------------------------------------------------------- (1) TARGETS-RESOLVE, (2) NAME
     n_entries = 0
@@ -127,6 +130,34 @@ def check(run: Run, prog: Program, model: Model, tier: str) -> None:
     # vacuity guard: if no path of the abstract evaluation records a replacement, every rule above is undecided
     run.floor("SCOPE-IMPORTFROM", 1)
 
+
+
+def _eval_constant(prog: Program, model: Model, mod: Any, node: ast.expr) -> Any:
+    """Value of a module-level expression built from constants only (literals, comprehensions over them)."""
+    from ..interp import Frame
+    out: Dict[str, Any] = {}
+
+    def to_py(v: Any) -> Any:
+        if isinstance(v, Const):
+            return v.value
+        if isinstance(v, DictV) and v.concrete():
+            return {to_py(k): to_py(x) for k, x in v.pairs()}
+        if isinstance(v, (TupleV, ListV)) and v.concrete():
+            items = [to_py(x) for x in v.items]
+            return tuple(items) if isinstance(v, TupleV) else items
+        raise ValueError(f"not a constant: {getattr(v, 'key', lambda: v)()}")
+    it = Interp(prog, model, unroll=64)
+
+    def run1(i: Interp) -> V:
+        out["v"] = i.eval(node, Frame(None, mod, {}, None, None))
+        return out["v"]
+    try:
+        ps = it.run_paths(run1)
+        if len(ps) != 1 or ps[0].outcome != "return":
+            return None
+        return to_py(ps[0].value)
+    except Exception:
+        return None
 
 def _evaluate(prog: Program, model: Model, fn: FuncInfo) -> Tuple[List[Any], List[Any]]:
     it = Interp(prog, model, unroll=1)
